@@ -12,8 +12,10 @@ import (
 	"fmt"
 	"math"
 	"math/big"
+	"os"
 	"path"
 	"sort"
+	"strconv"
 	"strings"
 	"testing"
 
@@ -537,7 +539,14 @@ func TestVerifC29(t *testing.T) {
 				stats["empty"]++
 				continue
 			}
-			coq := cTuple(cList(ins), obsOff, obsOn)
+			// tfScore samples (formula and generated k, b): L = j/16 is exact in binary64
+			var tfs []string
+			for j := 0; j < 3; j++ {
+				L := float64(r.Intn(80)) / 16
+				f := r.Intn(40)
+				tfs = append(tfs, cTuple(vf29Rat(L), cZ(int64(f)), vf29Rat(tfScore(vf29EnvFloat("VERIF_BM25_K", 1.2), vf29EnvFloat("VERIF_BM25_B", 0.75), L, f))))
+			}
+			coq := cTuple(cTuple(cList(ins), obsOff, obsOn), cList(tfs))
 			class := []string{fmt.Sprintf("chunk=%v", chunk), fmt.Sprintf("files=%d", min(len(on), 6)), fmt.Sprintf("promoted=%v", promoted), "q=" + strings.SplitN(q.name, "(", 2)[0]}
 			vfCase(coq, fmt.Sprintf("%x", sha1.Sum([]byte(coq))), len(on) >= 2 && multi, class,
 				map[string]any{"query": q.name, "chunk": chunk, "files": descs})
@@ -558,6 +567,13 @@ func vf29ExtID(name string) uint64 {
 		}
 	}
 	return 99
+}
+
+func vf29EnvFloat(name string, def float64) float64 {
+	if v, err := strconv.ParseFloat(os.Getenv(name), 64); err == nil {
+		return v
+	}
+	return def
 }
 
 func vf29FileID(k string) uint32 {
